@@ -41,9 +41,12 @@ def TV.dataRows (t : TV) : List Row := transposeN (t.cols.map (·.cells)) t.nRow
 def headR (t : TV) : Cell := .str ('*' :: '*' :: t.name)
 def headT (t : TV) : Cell := .str ('*' :: '*' :: (t.name ++ ['*']))
 
-/-- row-wise layout: `**name` / destinations / names / units / one line per row -/
+/-- row-wise layout: `**name` / destinations / names / units / one line per row.
+    A table without columns has an empty column-name line, which ends the block for the splitter: its block is
+    the two lines `**name` / destinations (csv.py:_table_to_csv writes `**t;`, `all`, then empty lines). -/
 def layoutR (t : TV) : List Row :=
-  [headR t] :: [t.dest] :: t.names.map Cell.str :: t.units.map Cell.str :: t.dataRows
+  if t.cols.isEmpty then [[headR t], [t.dest]]
+  else [headR t] :: [t.dest] :: t.names.map Cell.str :: t.units.map Cell.str :: t.dataRows
 
 def lineT (c : TCol) : Row := .str c.name :: .str c.unit :: c.cells
 
@@ -92,7 +95,24 @@ def addComments (b : Cell) (cs : List Cell) : List Row → List Row
 def toTransposed : List Row → List Row
   | (Cell.str s :: r0) :: d :: ns :: rest =>
     (Cell.str (s ++ ['*']) :: r0) :: d :: transposeN (ns :: rest) ns.length
+  | [Cell.str s :: r0, d] => [Cell.str (s ++ ['*']) :: r0, d]          -- a table without columns
   | g => g
+
+/-- the rewrites of one text that keep its orientation, as data; `apply` interprets them -/
+inductive Rewrite
+  | padTrailing (pads : List (List Cell))
+  | padHeaderR (fn fu : Nat → Str × Str)
+  | padHeaderT (fn fu : Nat → Str × Str)
+  | addComments (b : Cell) (cs : List Cell)
+
+def Rewrite.apply : Rewrite → List Row → List Row
+  | .padTrailing pads, g => Rewrites.padTrailing g pads
+  | .padHeaderR fn fu, g => Rewrites.padHeaderR fn fu g
+  | .padHeaderT fn fu, g => Rewrites.padHeaderT fn fu g
+  | .addComments b cs, g => Rewrites.addComments b cs g
+
+/-- any sequence of rewrites, applied left to right -/
+def applyAll (rs : List Rewrite) (g : List Row) : List Row := rs.foldl (fun g r => r.apply g) g
 
 /-- how the block ends in the row stream -/
 inductive EndBy
@@ -124,6 +144,10 @@ def allBlank (p : List Cell) : Bool := p.all Cell.isBlank
 def TV.wf (t : TV) : Bool :=
   t.name.getLast? != some '*' && !t.cols.isEmpty &&
   t.cols.all (fun c => nameOK c.name && unitOK c.unit && c.cells.length == t.nRows)
+
+/-- a table without columns (and hence without rows): both layouts are the two lines `**name[*]` / destinations -/
+def TV.wf0 (t : TV) : Bool :=
+  t.name.getLast? != some '*' && t.cols.isEmpty && t.nRows == 0
 
 /-- transposed layout only: every value row has a cell that is not blank (the reader stops at the first
     all-blank row, blocks.py:165-176) -/
